@@ -4,7 +4,7 @@
 // Script lines (one independent scenario each; see lean/Drv/C13.lean for the model side):
 //
 //	prog
-//	persist  kind=seg|snp id=N data=SPEC prior=absent|SPEC chunks=-|n,n,… fault=none|wfail:K|cancel:K|syncfail|lockbusy|noent
+//	persist  kind=seg|snp id=N data=SPEC prior=absent|SPEC chunks=-|n,n,… fault=none|wfail:K|cancel:K|syncfail|closefail|lockbusy|noent
 //	tpersist …same…   the scenario runs in a child process under strace; the result carries the system calls
 //	remove   kind=… id=N prior=absent|SPEC lock=none|shared|exclusive
 //	pid      steps=A:lock,B:lock,A:unlock,…      FileSystemDirectory.Lock / Unlock, one object per actor, one directory
@@ -32,10 +32,12 @@ import (
 	"os"
 	"os/exec"
 	"path/filepath"
+	"reflect"
 	"regexp"
 	"sort"
 	"strconv"
 	"strings"
+	"unsafe"
 
 	"github.com/blugelabs/bluge/index"
 	"github.com/blugelabs/bluge/index/lock"
@@ -46,7 +48,7 @@ import (
 type h struct{}
 
 func (h) Rule() string {
-	return "every combination of item size {0,1,4095,4096,4097,196609} × prior file {absent, shorter, equal, longer by 1/18/4096} × chunking {one write, boundary chunks} without fault; writer failure and cancellation after k bytes for k in {0,1,size/2,size-1,size,4096,65536}, Sync failure, busy lock, missing directory; both item kinds; Remove with and without a lock held by a reader; a traced subset (strace) for the system-call order; seeded random scenarios; Lock/Unlock sequences of three directory objects on one directory and OpenWriter/Close sequences of three real writers (pid file state after every step); Load through both loaders against Remove/Persist by another object and the closers, with traced subsets. A case is non-trivial when a prior file exists or a fault is injected or the writer uses more than one write; distinct by op line without the id"
+	return "every combination of item size {0,1,4095,4096,4097,196609} × prior file {absent, shorter, equal, longer by 1/18/4096} × chunking {one write, boundary chunks} without fault; writer failure and cancellation after k bytes for k in {0,1,size/2,size-1,size,4096,65536}, Sync failure, Close failure (an injected LockedFile whose Close reports an error), busy lock, missing directory; both item kinds; Remove with and without a lock held by a reader; a traced subset (strace) for the system-call order; seeded random scenarios; Lock/Unlock sequences of three directory objects on one directory and OpenWriter/Close sequences of three real writers (pid file state after every step); Load through both loaders against Remove/Persist by another object and the closers, with traced subsets. A case is non-trivial when a prior file exists or a fault is injected or the writer uses more than one write; distinct by op line without the id"
 }
 
 // ---------------------------------------------------------------- scenario description
@@ -182,6 +184,48 @@ func (w *writer) WriteTo(out io.Writer, closeCh chan struct{}) (int64, error) {
 	return n, nil
 }
 
+// ---------------------------------------------------------------- Close failure
+
+var errClose = errors.New("verif: close fails")
+
+// failingClose wraps the LockedFile Persist works on: the first Close releases the real handle and REPORTS an
+// error (what a delayed write error at close(2) looks like); later calls behave like the real thing.
+type failingClose struct {
+	lock.LockedFile
+	done bool
+}
+
+func (f *failingClose) Close() error {
+	err := f.LockedFile.Close()
+	if !f.done {
+		f.done = true
+		return errClose
+	}
+	return err
+}
+
+// injectCloseFailure replaces the unexported field `openExclusive` of the directory (no hook in /repo is needed
+// for this: the field is a function value; work/C13/hook.diff proposes an accessor instead of the reflection).
+func injectCloseFailure(d *index.FileSystemDirectory) bool {
+	fv := reflect.ValueOf(d).Elem().FieldByName("openExclusive")
+	if !fv.IsValid() || fv.Kind() != reflect.Func {
+		return false
+	}
+	orig, ok := reflect.NewAt(fv.Type(), unsafe.Pointer(fv.UnsafeAddr())).Elem().Interface().(func(string, int, os.FileMode) (lock.LockedFile, error))
+	if !ok || orig == nil {
+		return false
+	}
+	wrapped := func(path string, flag int, perm os.FileMode) (lock.LockedFile, error) {
+		f, err := orig(path, flag, perm)
+		if err != nil {
+			return nil, err
+		}
+		return &failingClose{LockedFile: f}, nil
+	}
+	reflect.NewAt(fv.Type(), unsafe.Pointer(fv.UnsafeAddr())).Elem().Set(reflect.ValueOf(wrapped))
+	return true
+}
+
 // ---------------------------------------------------------------- one scenario on the real code
 
 const beginMark = "/nonexistent-verif/C13-BEGIN"
@@ -252,6 +296,9 @@ func runScenario(op string, m map[string]string, dir string) string {
 		}
 		defer os.RemoveAll(dir)
 		d := index.NewFileSystemDirectory(target)
+		if fault == "closefail" && !injectCloseFailure(d) {
+			return "harness-error:inject"
+		}
 
 		// a lock held by somebody else (another open file description, as another process or an open reader has)
 		var held lock.LockedFile
@@ -545,7 +592,7 @@ func runLine(line string, dir string) string {
 // ---------------------------------------------------------------- strace
 
 var reLine = regexp.MustCompile(`^(\d+)\s+(.*)$`)
-var reCall = regexp.MustCompile(`^(\w+)\((.*)\)\s+=\s+(-?\d+|0x[0-9a-f]+|\?)(.*)$`)
+var reCall = regexp.MustCompile(`^(\w+)\((.*)\)\s+=\s+(0x[0-9a-f]+|-?\d+|\?)(.*)$`)
 
 // traceOf runs the scenario in a child under strace and returns (observation, system calls on the item's path).
 func traceOf(line string, dir string, work string) string {
@@ -676,6 +723,8 @@ func traceOf(line string, dir string, work string) string {
 			if onFd {
 				if strings.HasPrefix(ret, "-") {
 					evs = append(evs, "write=err")
+				} else if strings.HasPrefix(line, "tpid ") {
+					evs = append(evs, "write:pid") // the pid line: its length depends on the child's pid
 				} else {
 					evs = append(evs, "write:"+ret)
 				}
@@ -836,6 +885,7 @@ func (h) Gen(r *hlib.Rand, tier string, scale int, emit func(string)) {
 		}
 		for pi, p := range pick {
 			g.persist("persist", kinds[pi%2], size, p, cks[pi%len(cks)], "syncfail")
+			g.persist("persist", kinds[(pi+1)%2], size, p, cks[(pi+1)%len(cks)], "closefail")
 		}
 		// 3. the open fails: directory missing; lock held by somebody else (needs an existing file)
 		g.persist("persist", "seg", size, "absent", "-", "noent")
@@ -1015,13 +1065,15 @@ func (h) Gen(r *hlib.Rand, tier string, scale int, emit func(string)) {
 			ch = strings.Join(cs, ",")
 		}
 		fault := "none"
-		switch r.Weighted(5, 2, 2, 1) {
+		switch r.Weighted(10, 4, 4, 2, 1) {
 		case 1:
 			fault = fmt.Sprintf("wfail:%d", r.Intn(size+1))
 		case 2:
 			fault = fmt.Sprintf("cancel:%d", r.Intn(size+1))
 		case 3:
 			fault = "syncfail"
+		case 4:
+			fault = "closefail"
 		}
 		g.persist("persist", kinds[r.Intn(2)], size, prior, ch, fault)
 	}
